@@ -168,6 +168,7 @@ def s3(ck, an):
         ck.check(okb, "ORD", "S3.increment-before-store", fi.f.short, fi.loc(st[0]), "the increment happens before the length is stored", "the length is stored before it is incremented", construct=stmt_text(st[0]))
     ck.check(len(st) == 1 and isinstance(st[0], ast.Assign) and ast.unparse(st[0].value) == "episode_length", "ARGFLOW", "S3.length-stored", fi.f.short, fi.f.loc, "_episode_length is the (incremented) configured length",
              f"_episode_length = {[ast.unparse(s.value) for s in st if isinstance(s, ast.Assign)]}", construct="self._episode_length = episode_length")
+    own_writers(ck, an, "S3.configured-length-fixed", "TradingEnv", "_episode_length", {"TradingEnv.__init__"}, min_sites=1)
     fr = an.fa("TradingEnv.reset")
     rs = fr.calls_to("Transmitter._reset", "AbstractTransmitter._reset")
     for c in rs:
